@@ -471,10 +471,10 @@ class Component(CaselessDict):
                 factory = types_factory.for_property(name)
                 component = stack[-1] if stack else None
                 if not component:
-                    # only accept X-COMMENT at the end of the .ics file
-                    # ignore these components in parsing
+                    # accept X-COMMENT outside of the components of the .ics
+                    # file and ignore it; the lines after it are parsed
                     if uname == 'X-COMMENT':
-                        break
+                        continue
                     else:
                         raise ValueError(f'Property "{name}" does not have a parent component.')
                 datetime_names = ('DTSTART', 'DTEND', 'RECURRENCE-ID', 'DUE',
